@@ -964,6 +964,11 @@ func (p *ProjectRunner) removeProcess(name string) error {
 			running.waitForCompletion()
 		}
 	}
+	if running != nil {
+		// its goroutine may still be waiting for a dependency: it is not a process of the
+		// project anymore, whatever it still has to unwind
+		p.removeRunningProcess(running)
+	}
 	// the process does not exist anymore: neither does its state
 	p.statesMutex.Lock()
 	delete(p.processStates, name)
